@@ -3,13 +3,13 @@
 import json, os
 V = os.path.dirname(os.path.dirname(os.path.abspath(__file__)))
 TB = ('Coq 8.16.1 kernel and vm_compute (no native_compute); stdlib axioms of Reals/Coquelicot as printed per theorem in the evidence '
-      '(sig_not_dec, sig_forall_dec, functional_extensionality_dep, classic); translator tools/py2v.py and the correspondence harness; '
+      '(sig_not_dec, sig_forall_dec, functional_extensionality_dep, classic; for the float-instance theorems of C01/C19 additionally Coq.Floats.FloatAxioms and Uint63 specification axioms, via Flocq 4.1); translator tools/py2v.py and the correspondence harness; '
       'Python float = IEEE binary64; libm/pyclipper/repr are oracles (DESIGN 3).')
 
 CLAIMED = {
  'C01': ('Evaluation, end points, hodograph derivative and the two de Casteljau retrace identities are proved for all control polygons and all real t, s '
-         'over a model regenerated from the source on every run; the 1e-12 float clause is measured against exact rational arithmetic, not proved.',
-         'translator-regenerated Gallina model + ring/auto_derive proofs over R; bit-exact kernel cross-check; exact-rational search', '4/C01'),
+         'over a model regenerated from the source on every run; the 1e-12 floating-point clause is PROVED too (Flocq model of binary64 via the stdlib FloatAxioms): evaluation, lerp, both split pieces and the hodograph segments of the binary64 instance are within 74*2^-53*M + 22*2^-1075 <= 1e-12*M + 2^-1070 of the real instance for finite inputs |coord| <= M <= 2^1000, t in [0,1].',
+         'translator-regenerated Gallina model + ring/auto_derive proofs over R; reflective rounding-error bound (Base/FloatErr.v) over the float instance of the same text; bit-exact kernel cross-check; exact-rational search', '4/C01'),
  'C04': ('Proved for all inputs over a model regenerated from the source: the quadrature table has the Gauss-Legendre shape and integrates t^k (k<=5) exactly to 1e-30, '
          'length is exactly invariant under reversal/translation/rotation and scales by |k|, chord-1e-25*polygon <= length <= (1+1e-25)*polygon, lines are Euclidean and additive. '
          'The 2% / 0.01% accuracy clause and curve additivity within tolerance are NOT proved (quadrature error analysis of |B\'|): they are measured against adaptive Gauss-Kronrod by the search.',
@@ -18,10 +18,10 @@ CLAIMED = {
          'inverse, rigid ccw rotation about a centre, alignment. Float error (1e-9) is measured, libm is an oracle.',
          'translator-regenerated model; ring/field + trigonometric lemmas over R; induction on the call list; bit-exact kernel cross-check through a recorded libm table', '4/C09'),
  'C10': ('Proved for all inputs: a segment\'s area is the integral of y dx (Coquelicot is_RInt), additive under splitting, negated by reversal, elevation-invariant; for closed polylines the shoelace value equals '
-         'minus the sum of edge areas and is negated/invariant/scaled as stated; Rectangle has signed area -w*h. The 10*length flattening bound and positivity for every simple ccw contour are measured, not proved.',
+         'minus the sum of edge areas and is negated/invariant/scaled as stated; Rectangle has signed area -w*h; positivity (direction +1) is proved for star-shaped, fan, convex and ear-built ccw polygons (negativity for cw); Ellipse/Circle/Square are modelled bit-exactly and their exact Green area is -K(s)*rx*ry with K(default) in (3.1424,3.1425), control polygon clockwise. The 10*length flattening bound and positivity for EVERY simple contour (two-ears theorem) are not proved.',
          'translator-regenerated kernels + hand model of signed_area/Rectangle with correspondence; is_RInt/ring proofs, induction over edge lists; exact Green-integral search', '4/C10'),
  'C19': ('Full statement: includes/overlaps are exactly the closed-range definitions and overlap is symmetric; under the quantifier\'s tie condition the sweep output is a permutation of all overlapping (A,B) pairs, '
-         'each exactly once (soundness and no-duplicates unconditionally; exact iff condition for completeness; refutation witness without the tie condition).',
+         'each exactly once (soundness and no-duplicates unconditionally; exact iff condition for completeness; refutation witness without the tie condition). The binary64 instance of includes/overlaps/the whole sweep is PROVED EQUAL to the real instance on finite inputs (Flocq), so all of this holds of the float code as executed.',
          'translator-regenerated predicates + hand model of the sweep (events, stable sort, deques) with exact correspondence; invariant proof over sorted event lists', '4/C19'),
  'C02': ('Proved for ALL segments and all t in [0,1] over a model regenerated from the source: the reported box enlarged by 0.06% of the control-polygon extent contains the curve (no hypothesis), '
          'and the box itself does when no derivative zero lies in the 1% end slivers; tightness of all four sides; the path box is the join of the segment boxes. Float root placement is measured.',
@@ -41,7 +41,7 @@ CLAIMED = {
          'keeps all nodes, start, end and connectivity; every piece between the cuts is monotone up to 0.06% of the original extent (exactly monotone without sliver zeros). Paths containing the same segment value twice are a recorded known finding (refutation witness proved). Float placement of cuts is measured.',
          'translator-regenerated kernels + hand model of splitAtPoints/addExtremes (value-keyed dict) with bit-exact correspondence; induction over the walk, Simpson/IVT sign analysis', '4/C03'),
  'C06': ('Proved over R on a hand model tied by bit-exact correspondence (ranges are dyadic): range invariant (a visited piece IS the sub-curve of its range), every report comes from two overlapping boxes of area < 1e-3 with an explicit distance bound, no crossing is missed modulo box enclosure, dedup keeps the first report per key, hasLoop returns a genuine double point iff the discriminant is negative, self-intersection enumeration. '
-         'The quantitative 0.2% clauses are REFUTED for the model and the code (two recorded known findings: area stop rule, dedup bucket); they are watched by the search.',
+         'Operand-order: the reports before de-duplication are exact swapped permutations of each other (any carrier incl. binary64), mixed-degree calls are identical, what survives de-duplication is characterised and count symmetry is refuted on the binary64 model. The quantitative 0.2% clauses are REFUTED for the model and the code (two recorded known findings: area stop rule, dedup bucket); they are watched by the search.',
          'hand model of the recursive subdivision (fuel) incl. an exact "%.2f" key; induction on depth; field proof of the loop double point; ground-truth search by subdivision + Newton', '4/C06'),
  'C16': ('Proved over R: lengthAt 0 = 0 and lengthAt 1 = length for segments and paths; path evaluation = segment floor(t*n) at the fractional parameter, continuous on connected chains, reaches the end at t = 1; sample/regular sample start exactly at 0, end exactly at 1, stay in [0,1], non-decreasing; no exception for valid t, n, length (incl. t = 1.0) given the stated fuel. '
          'Strict increase is refuted (recorded known finding); monotonicity of lengthAt and the 5% spacing rest on quadrature accuracy and are measured only.',
@@ -57,7 +57,7 @@ CLAIMED = {
          'adjacent-duplicate removal is exactly that; the only escape is a corner re-entry that would diverge (characterised, never observed). The float run taking the same decisions and finiteness of control points are measured (bit-exact correspondence of the whole fitter incl. its call log).',
          'two-layer hand model (recursion skeleton over an abstract core + bit-faithful numeric core) with bit-exact correspondence; induction on fuel; search over all families of the quantifier', '4/C14'),
  'C20': ('Proved over R for all control points and all fuel, about generated S/D tables and a hand model of minDist tied by exact correspondence (recorded S values, call counts): S(u,v) IS the squared distance |P(u)-Q(v)|^2 for all nine kind pairs; a returned alpha is S at some point of [0,1]^2 (and the reported parameters lie in [0,1]); hence the distance is realised, >= 0, >= the true minimum and <= the maximum; '
-         'the reported segments of a path pair belong to the paths; the only non-Ok outcome over R is fuel. Termination within the recursion limit and float behaviour near distance 0 are measured.',
+         'the reported segments of a path pair belong to the paths; and the recursion TERMINATES: over R it never nests deeper than 76 levels for any pair of segments, so curveDistance with fuel >= 80 always returns a realised distance (more fuel does not change it). Float recursion depth and accuracy near distance 0 are measured.',
          'translator-regenerated S and D(r,k) (memo stripped, binomials run from source) proved equal to the squared distance by field; hand model of the branch-and-bound with threaded bestAlpha, induction on fuel; brute-force reference search', '4/C20'),
  'C12': ('Proved on a hand model of the glue around pyclipper, tied by exact correspondence on recorded AddPath/Execute traffic: the integer polygons handed to Clipper are exactly the truncated x100 start points of the flattened, pre-split outlines with subject = receiver and clip = argument and the operation as named; in polygon mode every result path is the closed chain of all n edges of its polygon at 1/100 scale; '
          'under the stated even-odd hypothesis on Clipper (a Section premise, spot-checked on every recorded run) the result\'s even-odd interior is the Boolean combination of the flattened inputs\' interiors; the inputs are not rebound. Clipper itself, the 2-unit flattening deviation and the two area identities are measured by the search (probe points, exact even-odd areas).',
